@@ -56,6 +56,7 @@ Record node := mkNode {
 Record state := mkState {
   g_nodes : list node; g_sent : list request; g_replies : list reply; g_nextptr : nat;
   g_installed : list (nat * nat * Z);   (* ghost: (node, version, value) of every install *)
+  g_won : list request;                 (* ghost: pre-commit requests whose broadcast succeeded *)
   g_panic : bool }.
 
 (* ---------- decidable equalities ---------- *)
@@ -114,17 +115,19 @@ Fixpoint upd {A} (l : list A) (i : nat) (x : A) : list A :=
   end.
 
 Definition set_node (s : state) (i : nat) (x : node) : state :=
-  mkState (upd (g_nodes s) i x) (g_sent s) (g_replies s) (g_nextptr s) (g_installed s) (g_panic s).
+  mkState (upd (g_nodes s) i x) (g_sent s) (g_replies s) (g_nextptr s) (g_installed s) (g_won s) (g_panic s).
 Definition add_sent (m : request) (s : state) : state :=
-  mkState (g_nodes s) (g_sent s ++ [m]) (g_replies s) (g_nextptr s) (g_installed s) (g_panic s).
+  mkState (g_nodes s) (g_sent s ++ [m]) (g_replies s) (g_nextptr s) (g_installed s) (g_won s) (g_panic s).
 Definition add_reply (p : reply) (s : state) : state :=
-  mkState (g_nodes s) (g_sent s) (g_replies s ++ [p]) (g_nextptr s) (g_installed s) (g_panic s).
+  mkState (g_nodes s) (g_sent s) (g_replies s ++ [p]) (g_nextptr s) (g_installed s) (g_won s) (g_panic s).
 Definition bump_ptr (k : nat) (s : state) : state :=
-  mkState (g_nodes s) (g_sent s) (g_replies s) (g_nextptr s + k) (g_installed s) (g_panic s).
+  mkState (g_nodes s) (g_sent s) (g_replies s) (g_nextptr s + k) (g_installed s) (g_won s) (g_panic s).
 Definition add_installed (e : nat * nat * Z) (s : state) : state :=
-  mkState (g_nodes s) (g_sent s) (g_replies s) (g_nextptr s) (g_installed s ++ [e]) (g_panic s).
+  mkState (g_nodes s) (g_sent s) (g_replies s) (g_nextptr s) (g_installed s ++ [e]) (g_won s) (g_panic s).
 Definition set_panic (s : state) : state :=
-  mkState (g_nodes s) (g_sent s) (g_replies s) (g_nextptr s) (g_installed s) true.
+  mkState (g_nodes s) (g_sent s) (g_replies s) (g_nextptr s) (g_installed s) (g_won s) true.
+Definition add_won (m : request) (s : state) : state :=
+  mkState (g_nodes s) (g_sent s) (g_replies s) (g_nextptr s) (g_installed s) (g_won s ++ [m]) (g_panic s).
 
 (* ---------- the code ---------- *)
 
@@ -245,15 +248,55 @@ Definition get (s : state) (i : nat) : option node := nth_error (g_nodes s) i.
 Definition enter_cs (x : node) : node :=
   match n_cs x with NotCS => set_secver (n_ver x) (set_cs InCS x) | _ => x end.
 
-(* learn a newer (version, value) from a reject reply *)
-Definition learn (s : state) (i : nat) (x : node) (p : reply) (vp : nat) : state :=
-  if negb (p_acc p) && (n_ver x <? p_ver p)
-  then add_installed (i, p_ver p, p_val p) (set_node s i (accept_new (p_val p) vp (p_ver p) x))
-  else s.
-
 Definition mk_abort (i : nat) (x : node) (t : Z) : request := mkReq RAbort 0 0 i i (n_ver x + 1) t.
+Definition mk_pre (i : nat) (x : node) (t : Z) : request := mkReq RPre (n_val x) (n_vptr x) i i (n_ver x + 1) t.
+Definition mk_commit (i : nat) (x : node) (t : Z) : request := mkReq RCommit (n_val x) (n_vptr x) i i (n_ver x + 1) t.
 
-Definition step (c : config) (s : state) (e : event) : option state :=
+(* what one transition does: at most one node changes; requests/replies/ghosts are appended *)
+Record effect := mkEff {
+  f_upd : option (nat * node); f_sent : list request; f_rep : list reply;
+  f_inst : list (nat * nat * Z); f_won : list request; f_ptr : nat; f_panic : bool }.
+Definition eff0 : effect := mkEff None [] [] [] [] 0 false.
+Definition eff_node (i : nat) (x : node) : effect := mkEff (Some (i, x)) [] [] [] [] 0 false.
+Definition eff_send (i : nat) (x : node) (m : request) : effect := mkEff (Some (i, x)) [m] [] [] [] 0 false.
+
+Definition apply_eff (s : state) (f : effect) : state :=
+  mkState (match f_upd f with Some (i, x) => upd (g_nodes s) i x | None => g_nodes s end)
+          (g_sent s ++ f_sent f) (g_replies s ++ f_rep f) (g_nextptr s + f_ptr f)
+          (g_installed s ++ f_inst f) (g_won s ++ f_won f) (g_panic s || f_panic f).
+
+(* a reject reply carrying a newer (version, value) is adopted *)
+Definition learns (x : node) (p : reply) : bool := negb (p_acc p) && (n_ver x <? p_ver p).
+Definition learn_node (x : node) (p : reply) : node :=
+  if learns x p then accept_new (p_val p) (p_vptr p) (p_ver p) x else x.
+Definition learn_inst (i : nat) (x : node) (p : reply) : list (nat * nat * Z) :=
+  if learns x p then [(i, p_ver p, p_val p)] else [].
+
+(* the response handler of proposer i for the slot (m, j) *)
+Definition count_reply (m : request) (j : nat) (acc : bool) (o : op) : op :=
+  match o with
+  | OpPre m' yes no =>
+      if req_eqb m' m && negb (mem j yes) && negb (mem j no)
+      then (if acc then OpPre m' (j :: yes) no else OpPre m' yes (j :: no)) else o
+  | OpAbort m' ov acks fp => if req_eqb m' m && negb (mem j acks) then OpAbort m' ov (j :: acks) fp else o
+  | OpCommit m' ov acks => if req_eqb m' m && negb (mem j acks) then OpCommit m' ov (j :: acks) else o
+  | _ => o
+  end.
+
+(* a failed send: a pre-commit slot counts as a refusal; an abort/commit slot is retried while the
+   proposer's version is unchanged and given up (counted as done) otherwise *)
+Definition count_timeout (m : request) (j : nat) (ver : nat) (o : op) : op :=
+  match o with
+  | OpPre m' yes no =>
+      if req_eqb m' m && negb (mem j yes) && negb (mem j no) then OpPre m' yes (j :: no) else o
+  | OpAbort m' ov acks fp =>
+      if req_eqb m' m && negb (mem j acks) && negb (Nat.eqb ver ov) then OpAbort m' ov (j :: acks) fp else o
+  | OpCommit m' ov acks =>
+      if req_eqb m' m && negb (mem j acks) && negb (Nat.eqb ver ov) then OpCommit m' ov (j :: acks) else o
+  | _ => o
+  end.
+
+Definition effect_of (c : config) (s : state) (e : event) : option effect :=
   let n := nnodes s in
   match e with
   | ERead i =>
@@ -261,7 +304,7 @@ Definition step (c : config) (s : state) (e : event) : option state :=
       | Some x =>
           match n_op x with
           | OpNone => if n_preok x then None else
-                      if perm_failed (n_cs x) then Some s else Some (set_node s i (enter_cs x))
+                      if perm_failed (n_cs x) then Some eff0 else Some (eff_node i (enter_cs x))
           | _ => None
           end
       | None => None
@@ -271,8 +314,8 @@ Definition step (c : config) (s : state) (e : event) : option state :=
       | Some x =>
           match n_op x with
           | OpNone => if n_preok x then None else
-                      if perm_failed (n_cs x) then Some s
-                      else Some (bump_ptr 1 (set_node s i (enter_cs (set_val z (g_nextptr s) x))))
+                      if perm_failed (n_cs x) then Some eff0
+                      else Some (mkEff (Some (i, enter_cs (set_val z (g_nextptr s) x))) [] [] [] [] 1 false)
           | _ => None
           end
       | None => None
@@ -281,7 +324,7 @@ Definition step (c : config) (s : state) (e : event) : option state :=
       match get s i with
       | Some x =>
           match n_op x with
-          | OpNone => if n_preok x then None else Some (set_node s i (set_op (OpSleep (n_ver x)) x))
+          | OpNone => if n_preok x then None else Some (eff_node i (set_op (OpSleep (n_ver x)) x))
           | _ => None
           end
       | None => None
@@ -292,11 +335,11 @@ Definition step (c : config) (s : state) (e : event) : option state :=
           match n_op x with
           | OpSleep iv =>
               if negb (Nat.eqb (n_ver x) iv) || n_tpc x || perm_failed (n_cs x)
-              then Some (set_node s i (set_op OpNone x))
+              then Some (eff_node i (set_op OpNone x))
               else if Z.ltb (n_clock x) t then
                 let x0 := match n_cs x with NotCS => set_secver (n_ver x) x | _ => x end in
-                let m := mkReq RPre (n_val x) (n_vptr x) i i (n_ver x + 1) t in
-                Some (add_sent m (set_node s i (set_clock t (set_op (OpPre m [] []) (set_cs InPre x0)))))
+                let m := mk_pre i x t in
+                Some (eff_send i (set_clock t (set_op (OpPre m [] []) (set_cs InPre x0))) m)
               else None
           | _ => None
           end
@@ -312,8 +355,7 @@ Definition step (c : config) (s : state) (e : event) : option state :=
                     | Local => p
                     | Rpc => mkRep (p_from p) (p_req p) (p_acc p) (p_ver p) (p_val p) (g_nextptr s + 2) (p_real p)
                     end in
-          let s1 := add_reply p' (bump_ptr 3 (set_node s j x')) in
-          Some (if inst then add_installed (j, r_ver m, r_val m) s1 else s1)
+          Some (mkEff (Some (j, x')) [] [p'] (if inst then [(j, r_ver m, r_val m)] else []) [] 3 false)
       | _, _ => None
       end
   | EReply i q j r =>
@@ -321,39 +363,14 @@ Definition step (c : config) (s : state) (e : event) : option state :=
       | Some m, Some x =>
           match lookup_rep s m j r with
           | Some p =>
-              match r_type m with
-              | RPre =>
-                  let s1 := learn s i x p (p_vptr p) in
-                  match get s1 i with
-                  | Some x1 =>
-                      match n_op x1 with
-                      | OpPre m' yes no =>
-                          if req_eqb m' m && negb (mem j yes) && negb (mem j no)
-                          then Some (set_node s1 i (set_op (if p_acc p then OpPre m' (j :: yes) no
-                                                            else OpPre m' yes (j :: no)) x1))
-                          else Some s1
-                      | _ => Some s1
-                      end
-                  | None => None
-                  end
-              | _ =>
-                  (* broadcastAbortOrCommit: assert(reply.Version > originalVersion) on a reject *)
-                  let s0 := if negb (p_acc p) && (p_ver p <? r_ver m) then set_panic s else s in
-                  let s1 := learn s0 i x p (p_vptr p) in
-                  match get s1 i with
-                  | Some x1 =>
-                      match n_op x1 with
-                      | OpAbort m' ov acks fp =>
-                          if req_eqb m' m && negb (mem j acks)
-                          then Some (set_node s1 i (set_op (OpAbort m' ov (j :: acks) fp) x1)) else Some s1
-                      | OpCommit m' ov acks =>
-                          if req_eqb m' m && negb (mem j acks)
-                          then Some (set_node s1 i (set_op (OpCommit m' ov (j :: acks)) x1)) else Some s1
-                      | _ => Some s1
-                      end
-                  | None => None
-                  end
-              end
+              let x1 := learn_node x p in
+              (* broadcastAbortOrCommit: assert(reply.Version > originalVersion) on a reject *)
+              let pn := match r_type m with
+                        | RPre => false
+                        | _ => negb (p_acc p) && (p_ver p <? r_ver m)
+                        end in
+              Some (mkEff (Some (i, set_op (count_reply m j (p_acc p) (n_op x1)) x1)) [] []
+                          (learn_inst i x p) [] 0 pn)
           | None => None
           end
       | _, _ => None
@@ -361,20 +378,8 @@ Definition step (c : config) (s : state) (e : event) : option state :=
   | ETimeout i q j =>
       match lookup_req s i q, get s i with
       | Some m, Some x =>
-          if Nat.eqb i j || negb (j <? n) then None else
-          match n_op x with
-          | OpPre m' yes no =>
-              if req_eqb m' m && negb (mem j yes) && negb (mem j no)
-              then Some (set_node s i (set_op (OpPre m' yes (j :: no)) x)) else Some s
-          | OpAbort m' ov acks fp =>
-              (* after the error the sender retries while its version is unchanged, else gives up *)
-              if req_eqb m' m && negb (mem j acks) && negb (Nat.eqb (n_ver x) ov)
-              then Some (set_node s i (set_op (OpAbort m' ov (j :: acks) fp) x)) else Some s
-          | OpCommit m' ov acks =>
-              if req_eqb m' m && negb (mem j acks) && negb (Nat.eqb (n_ver x) ov)
-              then Some (set_node s i (set_op (OpCommit m' ov (j :: acks)) x)) else Some s
-          | _ => Some s
-          end
+          if Nat.eqb i j || negb (j <? n) then None
+          else Some (eff_node i (set_op (count_timeout m j (n_ver x) (n_op x)) x))
       | _, _ => None
       end
   | EPreFinish i t =>
@@ -390,11 +395,11 @@ Definition step (c : config) (s : state) (e : event) : option state :=
                 then
                   if Z.ltb (n_clock x) t then
                     let a := mk_abort i x t in
-                    Some (add_sent a (set_node s i (set_clock t (set_op (OpAbort a (n_ver x) [] true) x))))
+                    Some (eff_send i (set_clock t (set_op (OpAbort a (n_ver x) [] true) x)) a)
                   else None
                 else
-                  let s1 := if cs_eqb (n_cs x) InPre then s else set_panic s in
-                  Some (set_node s1 i (set_preok true (set_op OpNone (set_cs HasPre (set_att 0 x)))))
+                  Some (mkEff (Some (i, set_preok true (set_op OpNone (set_cs HasPre (set_att 0 x)))))
+                              [] [] [] [m] 0 (negb (cs_eqb (n_cs x) InPre)))
               else None
           | _ => None
           end
@@ -406,8 +411,8 @@ Definition step (c : config) (s : state) (e : event) : option state :=
           match n_op x with
           | OpAbort m ov acks fp =>
               if required n <=? List.length acks then
-                if fp then Some (set_node s i (set_op OpNone (set_att (n_att x + 1) (set_cs FailedPre x))))
-                else Some (set_node s i (set_op OpNone (set_cs NotCS x)))
+                if fp then Some (eff_node i (set_op OpNone (set_att (n_att x + 1) (set_cs FailedPre x))))
+                else Some (eff_node i (set_op OpNone (set_cs NotCS x)))
               else None
           | _ => None
           end
@@ -423,9 +428,9 @@ Definition step (c : config) (s : state) (e : event) : option state :=
               | HasPre =>
                   if Z.ltb (n_clock x) t then
                     let a := mk_abort i x t in
-                    Some (add_sent a (set_node s i (set_clock t (set_op (OpAbort a (n_ver x) [] false) x1))))
+                    Some (eff_send i (set_clock t (set_op (OpAbort a (n_ver x) [] false) x1)) a)
                   else None
-              | _ => Some (set_node s i (set_cs NotCS x1))
+              | _ => Some (eff_node i (set_cs NotCS x1))
               end
           | _ => None
           end
@@ -438,9 +443,9 @@ Definition step (c : config) (s : state) (e : event) : option state :=
           | OpNone =>
               if n_preok x then
                 if Z.ltb (n_clock x) t then
-                  let s0 := if cs_eqb (n_cs x) HasPre && negb (n_tpc x) then s else set_panic s in
-                  let m := mkReq RCommit (n_val x) (n_vptr x) i i (n_ver x + 1) t in
-                  Some (add_sent m (set_node s0 i (set_clock t (set_op (OpCommit m (n_ver x) []) x))))
+                  let m := mk_commit i x t in
+                  Some (mkEff (Some (i, set_clock t (set_op (OpCommit m (n_ver x) []) x))) [m] [] [] [] 0
+                              (negb (cs_eqb (n_cs x) HasPre && negb (n_tpc x))))
                 else None
               else None
           | _ => None
@@ -455,9 +460,9 @@ Definition step (c : config) (s : state) (e : event) : option state :=
               if required n <=? List.length acks then
                 let x1 := set_preok false (set_op OpNone (set_cs NotCS x)) in
                 if Nat.eqb (n_ver x) ov
-                then Some (add_installed (i, n_ver x + 1, n_val x)
-                             (set_node s i (set_install (n_ver x + 1) (n_val x) (n_vptr x) x1)))
-                else Some (set_node s i x1)
+                then Some (mkEff (Some (i, set_install (n_ver x + 1) (n_val x) (n_vptr x) x1)) [] []
+                                 [(i, n_ver x + 1, n_val x)] [] 0 false)
+                else Some (eff_node i x1)
               else None
           | _ => None
           end
@@ -465,10 +470,13 @@ Definition step (c : config) (s : state) (e : event) : option state :=
       end
   end.
 
+Definition step (c : config) (s : state) (e : event) : option state :=
+  match effect_of c s e with Some f => Some (apply_eff s f) | None => None end.
+
 Definition init_node (z : Z) : node :=
   mkNode z 0 z 0 0 NotCS false acc_zero 0 [] OpNone false 0 0.
 Definition init_state (n : nat) (z : Z) : state :=
-  mkState (repeat (init_node z) n) [] [] (S n) [] false.
+  mkState (repeat (init_node z) n) [] [] (S n) [] [] false.
 
 Fixpoint run (c : config) (s : state) (es : list event) : option state :=
   match es with
